@@ -155,6 +155,64 @@ theorem traceNormV_zero_gen : traceNormV (0 : Matrix ι ι ℂ) = 0 := by
     · rintro rfl; exact zero_mem_tnSet 0
   rw [traceNormV, this, csSup_singleton]
 
+theorem posSemidef_one_sub_smul {H : Matrix ι ι ℂ} (hH : H.IsHermitian) (c : ℝ) (hc : 0 ≤ c)
+    (hcS : c * (∑ i, ∑ j, ‖H i j‖) ≤ 1) : (1 - (c : ℂ) • H).PosSemidef := by
+  have hHerm : (1 - (c : ℂ) • H).IsHermitian := by
+    refine Matrix.isHermitian_one.sub ?_
+    unfold Matrix.IsHermitian
+    rw [Matrix.conjTranspose_smul, hH.eq, Complex.star_def, Complex.conj_ofReal]
+  refine Matrix.posSemidef_of_diagDominant hHerm fun i => ?_
+  have hrow : ∑ j, ‖H i j‖ ≤ ∑ i, ∑ j, ‖H i j‖ :=
+    Finset.single_le_sum (f := fun i => ∑ j, ‖H i j‖) (fun _ _ => Finset.sum_nonneg fun _ _ => norm_nonneg _)
+      (Finset.mem_univ i)
+  have h1 : ∑ j ∈ Finset.univ.erase i, ‖(1 - (c : ℂ) • H) i j‖ = c * ∑ j ∈ Finset.univ.erase i, ‖H i j‖ := by
+    rw [Finset.mul_sum]
+    refine Finset.sum_congr rfl fun j hj => ?_
+    have hne : i ≠ j := (Finset.ne_of_mem_erase hj).symm
+    simp [Matrix.sub_apply, Matrix.one_apply_ne hne, abs_of_nonneg hc]
+  have h2 : ((1 - (c : ℂ) • H) i i).re = 1 - c * (H i i).re := by
+    simp [Matrix.sub_apply]
+  have h3 : (H i i).re ≤ ‖H i i‖ := Complex.re_le_norm _
+  have h4 : ∑ j ∈ Finset.univ.erase i, ‖H i j‖ + ‖H i i‖ = ∑ j, ‖H i j‖ :=
+    Finset.sum_erase_add _ _ (Finset.mem_univ i)
+  rw [h1, h2]
+  have h5 : c * (∑ j, ‖H i j‖) ≤ 1 := (mul_le_mul_of_nonneg_left hrow hc).trans hcS
+  have h6 : c * (H i i).re ≤ c * ‖H i i‖ := mul_le_mul_of_nonneg_left h3 hc
+  rw [← h4, mul_add] at h5
+  linarith
+
+/-- a small positive multiple of a Hermitian matrix is a contraction -/
+theorem exists_smul_contraction {H : Matrix ι ι ℂ} (hH : H.IsHermitian) :
+    ∃ c : ℝ, 0 < c ∧ IsContraction ((c : ℂ) • H) := by
+  set S := ∑ i, ∑ j, ‖H i j‖ with hS
+  have hS0 : 0 ≤ S := Finset.sum_nonneg fun _ _ => Finset.sum_nonneg fun _ _ => norm_nonneg _
+  refine ⟨(1 + S)⁻¹, by positivity, ?_, ?_⟩
+  · refine posSemidef_one_sub_smul hH _ (by positivity) ?_
+    rw [inv_mul_le_iff₀ (by positivity)]; linarith
+  · have hH' : (-H).IsHermitian := by
+      unfold Matrix.IsHermitian; rw [Matrix.conjTranspose_neg, hH.eq]
+    have := posSemidef_one_sub_smul hH' (1 + S)⁻¹ (by positivity) (by
+      simp only [Matrix.neg_apply, norm_neg]
+      rw [inv_mul_le_iff₀ (by positivity)]; linarith)
+    simpa [sub_neg_eq_add] using this
+
+/-- definiteness of the trace norm in its max form -/
+theorem eq_zero_of_traceNormV_eq_zero {H : Matrix ι ι ℂ} (hH : H.IsHermitian) (h0 : traceNormV H = 0) :
+    H = 0 := by
+  obtain ⟨c, hc, hW⟩ := exists_smul_contraction hH
+  have h1 := le_traceNormV_gen hH hW
+  rw [h0, Matrix.smul_mul, Matrix.trace_smul, smul_eq_mul, Complex.re_ofReal_mul] at h1
+  have h2 : 0 ≤ (Hᴴ * H).trace := (Matrix.posSemidef_conjTranspose_mul_self H).trace_nonneg
+  rw [hH.eq] at h2
+  obtain ⟨h3, h4⟩ := Complex.nonneg_iff.mp h2
+  have h5 : (H * H).trace.re ≤ 0 := by
+    by_contra hlt
+    rw [not_le] at hlt
+    have := mul_pos hc hlt
+    linarith
+  have h6 : (H * H).trace = 0 := Complex.ext (le_antisymm h5 h3) h4.symm
+  have : (Hᴴ * H).trace = 0 := by rw [hH.eq]; exact h6
+  exact Matrix.trace_conjTranspose_mul_self_eq_zero_iff.mp this
 end TraceNorm
 
 /-! ## Block matrices and Watrous' fidelity program -/
@@ -312,6 +370,78 @@ theorem fidFeasible_self {ρ : Matrix ι ι ℂ} (hρ : ρ.PosSemidef) : FidFeas
     rw [((CFC.sqrt_nonneg ρ).posSemidef).isHermitian.eq]; exact CFC.sqrt_mul_sqrt_self ρ hρ.nonneg
   rw [e1] at h
   rwa [hρ.isHermitian.eq]
+
+set_option linter.unusedSimpArgs false in
+/-- for a Hermitian idempotent `Π` and `a > 0`, `Y = a²Π + a⁻²(1−Π)`, `Z = a⁻²Π + a²(1−Π)` is dual feasible -/
+theorem fidDualFeasible_proj {P : Matrix ι ι ℂ} (hP : P.IsHermitian) (hPP : P * P = P) (a : ℝ) (ha : 0 < a) :
+    FidDualFeasible (((a ^ 2 : ℝ) : ℂ) • P + (((a ^ 2)⁻¹ : ℝ) : ℂ) • (1 - P))
+      ((((a ^ 2)⁻¹ : ℝ) : ℂ) • P + ((a ^ 2 : ℝ) : ℂ) • (1 - P)) := by
+  have h := posSemidef_fromBlocks_gram (((a : ℝ) : ℂ) • P + ((a⁻¹ : ℝ) : ℂ) • (1 - P))
+    (-(((a⁻¹ : ℝ) : ℂ) • P + ((a : ℝ) : ℂ) • (1 - P)))
+  have hQ : (1 - P) * (1 - P) = 1 - P := by
+    rw [Matrix.sub_mul, Matrix.mul_sub, Matrix.mul_sub, hPP]; simp
+  have hPQ : P * (1 - P) = 0 := by rw [Matrix.mul_sub, hPP]; simp
+  have hQP : (1 - P) * P = 0 := by rw [Matrix.sub_mul, hPP]; simp
+  have hQH : (1 - P)ᴴ = 1 - P := by rw [Matrix.conjTranspose_sub, hP.eq]; simp
+  have ha0 : ((a : ℝ) : ℂ) ≠ 0 := by exact_mod_cast ha.ne'
+  unfold FidDualFeasible DualBlockPsd
+  convert h using 2
+  · simp only [Matrix.conjTranspose_add, Matrix.conjTranspose_smul, hP.eq, hQH, Matrix.add_mul, Matrix.mul_add,
+      Matrix.smul_mul, Matrix.mul_smul, hPP, hQ, hPQ, hQP, smul_zero, add_zero, zero_add, smul_smul,
+      Complex.star_def, Complex.conj_ofReal]
+    push_cast; ring_nf
+  · simp only [Matrix.conjTranspose_add, Matrix.conjTranspose_smul, hP.eq, hQH, Matrix.add_mul, Matrix.mul_add,
+      Matrix.smul_mul, Matrix.mul_smul, hPP, hQ, hPQ, hQP, smul_zero, add_zero, zero_add, smul_smul,
+      Complex.star_def, Complex.conj_ofReal, Matrix.mul_neg]
+    push_cast
+    rw [mul_inv_cancel₀ ha0, inv_mul_cancel₀ ha0]; simp
+  · simp only [Matrix.conjTranspose_add, Matrix.conjTranspose_smul, hP.eq, hQH, Matrix.add_mul, Matrix.mul_add,
+      Matrix.smul_mul, Matrix.mul_smul, hPP, hQ, hPQ, hQP, smul_zero, add_zero, zero_add, smul_smul,
+      Complex.star_def, Complex.conj_ofReal, Matrix.neg_mul, Matrix.conjTranspose_neg, Matrix.conjTranspose_one, smul_neg]
+    push_cast
+    rw [mul_inv_cancel₀ ha0, inv_mul_cancel₀ ha0]; simp; abel
+  · simp only [Matrix.conjTranspose_add, Matrix.conjTranspose_smul, hP.eq, hQH, Matrix.add_mul, Matrix.mul_add,
+      Matrix.smul_mul, Matrix.mul_smul, hPP, hQ, hPQ, hQP, smul_zero, add_zero, zero_add, smul_smul,
+      Complex.star_def, Complex.conj_ofReal, Matrix.neg_mul, Matrix.mul_neg, Matrix.conjTranspose_neg, neg_neg, smul_neg, neg_add_rev]
+    push_cast; module
+
+/-- value of the dual point of `fidDualFeasible_proj` when `Π ρ = ρ` and `Π σ = 0` -/
+theorem dualVal_proj {ρ σ P : Matrix ι ι ℂ} (hρ : P * ρ = ρ) (hσ : P * σ = 0) (a : ℝ) :
+    dualVal ρ σ (((a ^ 2 : ℝ) : ℂ) • P + (((a ^ 2)⁻¹ : ℝ) : ℂ) • (1 - P))
+      ((((a ^ 2)⁻¹ : ℝ) : ℂ) • P + ((a ^ 2 : ℝ) : ℂ) • (1 - P))
+      = a ^ 2 * ((ρ.trace.re + σ.trace.re) / 2) := by
+  unfold dualVal
+  simp only [Matrix.add_mul, Matrix.smul_mul, Matrix.sub_mul, Matrix.one_mul, hρ, hσ, sub_self,
+    smul_zero, add_zero, zero_add, sub_zero, Matrix.trace_smul, smul_eq_mul, Complex.re_ofReal_mul]
+  ring
+
+/-- states with orthogonal supports (witnessed by a Hermitian idempotent `Π` with `Π ρ = ρ`, `Π σ = 0`)
+have fidelity-program value `0` -/
+theorem fidV_eq_zero_gen {ρ σ P : Matrix ι ι ℂ} (hρ : ρ.PosSemidef) (hσ : σ.PosSemidef)
+    (hP : P.IsHermitian) (hPP : P * P = P) (h1 : P * ρ = ρ) (h2 : P * σ = 0) : fidV ρ σ = 0 := by
+  refine le_antisymm ?_ (le_csSup (fidSet_bddAbove ρ σ) (zero_mem_fidSet hρ hσ))
+  set t := (ρ.trace.re + σ.trace.re) / 2 with ht
+  have ht0 : 0 ≤ t := by
+    have a1 := (Complex.nonneg_iff.mp hρ.trace_nonneg).1
+    have a2 := (Complex.nonneg_iff.mp hσ.trace_nonneg).1
+    positivity
+  have key : ∀ a : ℝ, 0 < a → fidV ρ σ ≤ a ^ 2 * t := by
+    intro a ha
+    have := fidV_le_gen hρ hσ (fidDualFeasible_proj hP hPP a ha)
+    rwa [dualVal_proj h1 h2] at this
+  by_contra hpos
+  rw [not_le] at hpos
+  set a := min 1 (fidV ρ σ / (2 * (t + 1))) with ha
+  have ha0 : 0 < a := lt_min one_pos (by positivity)
+  have ha1 : a ≤ 1 := min_le_left _ _
+  have ha2 : a ≤ fidV ρ σ / (2 * (t + 1)) := min_le_right _ _
+  have h3 : a ^ 2 ≤ a := by nlinarith
+  have h4 : a ^ 2 * t ≤ fidV ρ σ / (2 * (t + 1)) * t :=
+    mul_le_mul_of_nonneg_right (h3.trans ha2) ht0
+  have h5 : fidV ρ σ / (2 * (t + 1)) * t < fidV ρ σ := by
+    rw [div_mul_eq_mul_div, div_lt_iff₀ (by positivity)]
+    nlinarith
+  linarith [key a ha0]
 
 end Fidelity
 
